@@ -55,6 +55,7 @@ type ChanV struct {
 	closed  bool
 	offers  []Value // values external senders are ready to send (harness-provided)
 	takers  int     // number of external receivers ready to receive
+	takerFns []Value // callbacks of external receivers (called with the received value at hand-off time)
 	taken   []Value // values received by external receivers
 	elemT   types.Type
 	idleCtx bool // Done channel of a context cancelled "when idle"
